@@ -783,6 +783,52 @@ func checkC16(c *C16Case) Result {
 			}
 		}
 	}
+	// (b3) the same rules spread over files nested three levels deep in different directories, with a rule that
+	// names a data file relative to the directory of the OUTER file after the nested includes have ended
+	if len(c.Rules) >= 3 {
+		dir := filepath.Join(privateTmp, fmt.Sprintf("c16n-%d", os.Getpid()))
+		_ = os.MkdirAll(filepath.Join(dir, "m", "l"), 0o755)
+		_ = os.WriteFile(filepath.Join(dir, "words.dat"), []byte("alpha\nbeta\n"), 0o644)
+		tail := "SecRule ARGS \"@pmFromFile words.dat\" \"id:9990,phase:1,pass\"\n"
+		var flat strings.Builder
+		for _, r := range c.Rules {
+			flat.WriteString(r.render(nil))
+		}
+		_ = os.WriteFile(filepath.Join(dir, "flat.conf"), []byte(flat.String()+tail), 0o644)
+		_ = os.WriteFile(filepath.Join(dir, "m", "l", "leaf.conf"), []byte(c.Rules[1].render(nil)), 0o644)
+		var mid strings.Builder
+		mid.WriteString("Include " + filepath.Join(dir, "m", "l", "leaf.conf") + "\n")
+		mid.WriteString(c.Rules[2].render(nil))
+		_ = os.WriteFile(filepath.Join(dir, "m", "mid.conf"), []byte(mid.String()), 0o644)
+		var top strings.Builder
+		top.WriteString(c.Rules[0].render(nil))
+		top.WriteString("Include " + filepath.Join(dir, "m", "mid.conf") + "\n")
+		for _, r := range c.Rules[3:] {
+			top.WriteString(r.render(nil))
+		}
+		_ = os.WriteFile(filepath.Join(dir, "top.conf"), []byte(top.String()+tail), 0o644)
+		fr, ferr, f1 := compileText("Include "+filepath.Join(dir, "flat.conf")+"\n", nil)
+		nr, nerr, f2 := compileText("Include "+filepath.Join(dir, "top.conf")+"\n", nil)
+		_ = os.RemoveAll(dir)
+		if f1 != nil || f2 != nil {
+			if f1 == nil {
+				f1 = f2
+			}
+			res.Fail = f1
+			return res
+		}
+		if ferr == nil {
+			if nerr != nil {
+				res.Fail = failf("the rules spread over nested included files were rejected (%v) while the same rules in one file compile:\n%s", nerr, top.String()+tail)
+				return res
+			}
+			if d := diffDumps(deepDump(fr, c16Mask), deepDump(nr, c16Mask)); d != "" {
+				res.Fail = failf("the rules spread over nested included files compile to different rules (- one file, + nested):\n%s", d)
+				return res
+			}
+			res.Labels = append(res.Labels, "nested-includes-in-different-directories")
+		}
+	}
 	// (c) near-miss texts are rejected
 	if c.NearMiss != "" {
 		if text, ok := c.nearMissText(); ok {
